@@ -111,6 +111,7 @@ void SimAlloc::reset_run()
 	fired = 0;
 	total_fired = 0;
 	total_reqs = 0;
+	foreign_frees = 0;
 	in_parse = 0;
 	parse_reqs = 0;
 	fired_in_parse = 0;
@@ -210,7 +211,11 @@ extern "C" void sim_free(void *p)
 				return;
 			}
 		}
-		// A pointer we never handed out: let free() (ASan) judge it.
+		else if (g_alloc.installed) {
+			// A pointer this allocator never handed out (or already got back): counted, and reported by
+			// the per-run monitor; free() (ASan) still judges it.
+			g_alloc.foreign_frees++;
+		}
 	}
 	free(p);
 }
